@@ -366,7 +366,7 @@ impl<'a> UserModel<'a> {
                     scope,
                     old_value,
                 } => {
-                    self.model.new_defined_name(name, *scope, old_value)?;
+                    self.model.restore_defined_name(name, *scope, old_value)?;
                 }
                 Diff::UpdateDefinedName {
                     name,
